@@ -319,4 +319,10 @@ def r9_6(ctx):
     memo_rule(ctx, "R9.6", ["text", "measure", "padding", "panel", "constrain", "styled", "align", "containers"], 0)
 
 
-RULES = [r9_1, r9_2, r9_3, r9_4, r9_5, r9_6]
+def r9_7(ctx):
+    from .c05 import r5_8
+    from .common import borrow
+    borrow(ctx, r5_8, "R5.8", "R9.7", " [text rendered at its reported maximum fits it only if truncate / align measure in cells]")
+
+
+RULES = [r9_1, r9_2, r9_3, r9_4, r9_5, r9_6, r9_7]
